@@ -1,11 +1,141 @@
 (* Wire-level wrappers of property C07: decode arguments from sx, run the model, encode.
    Dispatch.v routes a block of unit numbers here; [k] is the offset inside the block. *)
 From Coq Require Import ZArith QArith List Bool.
-From VL Require Import Prelude.Sx.
+From VL Require Import Prelude.Sx Prelude.PyDict Model.Divisor Model.HighestAverages Model.Biprop.
 Import ListNotations.
 Open Scope Z_scope.
 
+Definition as_mat (s : sx) : option mat := as_dict as_pos (as_dict as_pos as_Z) s.
+Definition as_qmat (s : sx) : option qmat := as_dict as_pos (as_dict as_pos as_Q) s.
+Definition of_mat (m : mat) : sx := of_dict of_pos (of_dict of_pos A) m.
+Definition bit (b : bool) : sx := A (if b then 1 else 0).
+Definition getz (l : list (C * Z)) (k : C) : Z := dget_or l k 0.
+
+(* k = 0  biprop_check: (div votes n dmode outcome)
+     dmode   = (0)            districts apportioned by the same divisor rule on the district totals
+             | (1 dict)       district seats given
+     outcome = (0 res rho gamma) | (1)  refusal
+   -> (0 (10)) / (0 (11))   party / district marginal not tie-free (outside the quantifier)
+      (0 (0 rows cols entries pos cells dseats pseats))      bits of cert_ok on a returned matrix
+      (0 (1 0 cut)) refusal justified by a verified cut ; (0 (1 1 matrix)) refusal although this
+      matrix has the marginals and the support ; (0 (1 2)) reference ran out of fuel *)
+Definition u_biprop_check (a : sx) : sx :=
+  match a with
+  | L [A dv; v; A n; dm; oc] =>
+      match as_mat v with
+      | None => bad_input
+      | Some votes =>
+          let d := divisor_by_id dv in
+          let ds := districts votes in
+          let ps := parties votes in
+          match ha_marginal d (party_totals votes) n with
+          | None => ok (L [A 10])
+          | Some pseats =>
+              let dseats_o :=
+                match dm with
+                | L [A 0] => Some (ha_marginal d (district_totals votes) n)
+                | L [A 1; dd] => match as_dict as_pos as_Z dd with Some l => Some (Some l) | None => None end
+                | _ => None
+                end in
+              match dseats_o with
+              | None => bad_input
+              | Some None => ok (L [A 11])
+              | Some (Some dseats) =>
+                  match oc with
+                  | L [A 0; r; rh; ga] =>
+                      match as_mat r, as_dict as_pos as_Q rh, as_dict as_pos as_Q ga with
+                      | Some res, Some rho, Some gamma =>
+                          ok (L [A 0; bit (rows_ok ds ps dseats res); bit (cols_ok ds ps pseats res);
+                                 bit (entries_ok votes res); bit (pos_ok ds ps rho gamma);
+                                 bit (cells_ok d ds ps votes res rho gamma);
+                                 bit (cert_ok d ds ps votes dseats pseats res rho gamma);
+                                 of_dict of_pos A dseats; of_dict of_pos A pseats])
+                      | _, _, _ => bad_input
+                      end
+                  | L [A 1] =>
+                      match feasible_ref ds ps (fun i j => 0 <? mget votes i j) (getz dseats) (getz pseats) with
+                      | FeasCut cut => ok (L [A 1; A 0; L (map of_pos cut)])
+                      | FeasMatrix m => ok (L [A 1; A 1; of_mat m])
+                      | FeasUnknown => ok (L [A 1; A 2])
+                      end
+                  | _ => bad_input
+                  end
+              end
+          end
+      end
+  | _ => bad_input
+  end.
+
+(* k = 1  state invariant of one iteration: (div votes pseats res rho gamma) -> bits *)
+Definition u_biprop_inv (a : sx) : sx :=
+  match a with
+  | L [A dv; v; pse; r; rh; ga] =>
+      match as_mat v, as_dict as_pos as_Z pse, as_mat r, as_dict as_pos as_Q rh, as_dict as_pos as_Q ga with
+      | Some votes, Some pseats, Some res, Some rho, Some gamma =>
+          let d := divisor_by_id dv in
+          let ds := districts votes in
+          let ps := parties votes in
+          ok (L [bit (cols_ok ds ps pseats res); bit (entries_ok votes res); bit (pos_ok ds ps rho gamma);
+                 bit (cells_ok d ds ps votes res rho gamma);
+                 bit (inv_ok d ds ps votes pseats res rho gamma)])
+      | _, _, _, _, _ => bad_input
+      end
+  | _ => bad_input
+  end.
+
+(* k = 2  feasibility reference alone: (votes dseats pseats) *)
+Definition u_feasible (a : sx) : sx :=
+  match a with
+  | L [v; dse; pse] =>
+      match as_mat v, as_dict as_pos as_Z dse, as_dict as_pos as_Z pse with
+      | Some votes, Some dseats, Some pseats =>
+          match feasible_ref (districts votes) (parties votes) (fun i j => 0 <? mget votes i j)
+                             (getz dseats) (getz pseats) with
+          | FeasCut cut => ok (L [A 0; L (map of_pos cut)])
+          | FeasMatrix m => ok (L [A 1; of_mat m])
+          | FeasUnknown => ok (L [A 2])
+          end
+      | _, _, _ => bad_input
+      end
+  | _ => bad_input
+  end.
+
+(* k = 3  _augment_result: (res start hops) with hops = ((party district) ...) *)
+Definition u_augment (a : sx) : sx :=
+  match a with
+  | L [r; A (Zpos st); h] =>
+      match as_mat r, as_listof (as_pair as_pos as_pos) h with
+      | Some res, Some hops =>
+          match augment res st hops with
+          | Some m => ok (of_mat m)
+          | None => err E_KEY
+          end
+      | _, _ => bad_input
+      end
+  | _ => bad_input
+  end.
+
+(* k = 4  _adj_coef: (q quotients res labelled_districts labelled_parties) *)
+Definition u_adj_coef (a : sx) : sx :=
+  match a with
+  | L [qq; qs; r; dl; pl] =>
+      match as_Q qq, as_qmat qs, as_mat r, as_listof as_pos dl, as_listof as_pos pl with
+      | Some q, Some quots, Some res, Some DL, Some PL =>
+          match adj_coef q quots res DL PL with
+          | Adj x => ok (of_Q x)
+          | AdjZeroDivision => err 12
+          end
+      | _, _, _, _, _ => bad_input
+      end
+  | _ => bad_input
+  end.
+
 Definition u_c07 (k : Z) (a : sx) : sx :=
   match k with
+  | 0 => u_biprop_check a
+  | 1 => u_biprop_inv a
+  | 2 => u_feasible a
+  | 3 => u_augment a
+  | 4 => u_adj_coef a
   | _ => bad_input
   end.
